@@ -639,6 +639,12 @@ func (g *gen) table(prefix string, depth int) *node {
 					cell.with("rowspan", fmt.Sprint(rs))
 					g.feat("rowspan")
 				}
+				if cs == 1 && rs == 1 && g.chance(0.08) {
+					// a span attribute whose value is not a number: the HTML rules for parsing
+					// integers fail on it and the span keeps its default of 1
+					cell.with([]string{"colspan", "rowspan"}[g.r.Intn(2)], []string{"two", "x2", "-", "none"}[g.r.Intn(4)])
+					g.feat("span-unparsable")
+				}
 				for dr := 0; dr < rs; dr++ {
 					for dc := 0; dc < cs; dc++ {
 						occupied[[2]int{r + dr, c + dc}] = true
